@@ -25,7 +25,7 @@ def cases(tier, seed):
             origin = 'random rendering, damaged'
         else: origin = 'random rendering'
         if rng.random() < 0.3:
-            ast2 = X.random_ast(rng, 2, SYMS[:4]); yield {'text': text, 'text2': X.render(ast2, rng), 'origin': origin + ' + combinators'}
+            ast2 = X.random_ast(rng, 2, SYMS[:4]); yield {'text': text, 'text2': X.render(ast2, rng) if rng.random() < 0.85 else '', 'origin': origin + ' + combinators'}
         else: yield {'text': text, 'origin': origin}
 
 
@@ -71,7 +71,7 @@ def check(case):
     try:
         s = str(Regex(text)); back = Regex(s); cmp('C05.str-roundtrip', lambda w: back.accepts(w))
     except Exception as ex: fails.append(fail('C05.str-roundtrip:exception', f'{text!r}: str gives {s if "s" in dir() else "?"!r}: {type(ex).__name__}'))
-    if case.get('text2'):
+    if case.get('text2') is not None:
         try: ast2 = X.parse(case['text2'])
         except (X.IllFormed, X.OutOfScope): ast2 = None
         if ast2 is not None:
@@ -83,5 +83,10 @@ def check(case):
                     rr = build(Regex(text), Regex(case['text2']))
                     bad = [w for w in W2 if rr.accepts(w) != X.matches(tree, w)]
                     if bad: fails.append(fail(f'C05.{name}', f'{text!r}, {case["text2"]!r}: differs on {bad[:2]}'))
+                    Lc = C.lang(C.extract(rr.to_cfg()), n); Re = F.extract(rr.to_epsilon_nfa())
+                    bad = [w for w in W2 if (tuple(w) in Lc) != X.matches(tree, w)]
+                    if bad: fails.append(fail(f'C05.{name}.to_cfg', f'{text!r}, {case["text2"]!r}: differs on {bad[:2]}'))
+                    bad = [w for w in W2 if F.accepts(Re, w) != X.matches(tree, w)]
+                    if bad: fails.append(fail(f'C05.{name}.to_epsilon_nfa', f'{text!r}, {case["text2"]!r}: differs on {bad[:2]}'))
                 except Exception as ex: fails.append(fail(f'C05.{name}:exception', f'{text!r}: {ex!r}'))
     return fails, len(exp) > 0 and ast[0] in ('cat', 'alt', 'star'), 1
